@@ -58,9 +58,50 @@ def replay(recs):
             out.append(dict(site=site, stratum=stratum, case=case, expected=exp,
                             observed=(val if isinstance(val, str) else np.asarray(val).tolist())))
 
+    def pair(r):
+        """the two operands of a distance record (None when the record has no plain pair)"""
+        t = r["t"]
+        if t == "pp":
+            return len(r["a"]) - 1, P(r["a"]), P(r["b"])
+        if t == "ph":
+            return len(r["p"]) - 1, hyper(r["h"]), P(r["p"])
+        if t == "pl3":
+            return 3, g.Line(P(r["a"]), P(r["b"])), P(r["p"])
+        if t == "pseg":
+            return len(r["p"]) - 1, g.Segment(P(r["a"]), P(r["b"])), P(r["p"])
+        if t == "parplane":
+            return 3, hyper(r["h"]), hyper(r["g"])
+        if t == "parline":
+            return 3, hyper(r["h"]), g.Line(P(r["a"]), P(r["b"]))
+        if t == "ppoly":
+            return r["d"], g.Polygon(*[g.Point(*v) for v in r["poly"]]), P(r["p"])
+        return None
+
+    def moved(r, st):
+        """dist is invariant under isometries: the operands are used once (so that whatever they cache is filled), then moved
+        by a translation (as a transformation and as + point) and by a quarter turn, and measured again, in both orders"""
+        pr = pair(r)
+        if pr is None or r["d2"][1] == 0:
+            return
+        dim, x, y = pr
+        if any(bool(np.any(o.isinf)) for o in (x, y) if hasattr(o, "isinf") and o.tensor_shape == (0, 1)):
+            return
+        v = [3, -2] if dim == 2 else [3, -2, 5]
+        rot = np.array([[0, -1, 0], [1, 0, 0], [0, 0, 1]]) if dim == 2 else np.array([[0, -1, 0, 0], [1, 0, 0, 0], [0, 0, 1, 0], [0, 0, 0, 1]])
+        motions = [("translation", lambda o: g.translation(*v) * o), ("+point", lambda o: o + g.Point(*v)),
+                   ("quarter-turn", lambda o: g.Transformation(rot) * o)]
+        case = {k: r[k] for k in r if k not in ("t", "d2", "inside", "len2")}
+        for name, mv in motions:
+            check(f"dist/{r['t']}/{dim}D/after-{name}", st, {**case, "moved by": name}, {"dist^2": r["d2"]},
+                  lambda: (g.dist(x, y), g.dist(mv(x), mv(y)))[1], lambda val: d2_ok(val, r["d2"]))
+            check(f"dist/{r['t']}/{dim}D/after-{name}/swapped", st, {**case, "moved by": name}, {"dist^2": r["d2"]},
+                  lambda: (g.dist(y, x), g.dist(mv(y), mv(x)))[1], lambda val: d2_ok(val, r["d2"]))
+
     for d in recs:
         r, st = d["r"], d["s"]
         t = r["t"]
+        if (d.get("_n", 0) % 3) == 0:
+            moved(r, st)
         if t == "pp":
             dim = len(r["a"]) - 1
             a, b = P(r["a"]), P(r["b"])
@@ -208,6 +249,8 @@ def run(ctx: Ctx):
         if not strata.get(need):
             raise MachineryError(f"stratum {need} never visited (vacuous)")
     ctx.log(f"{len(recs)} cases")
+    for i, x in enumerate(recs):
+        x["_n"] = 0 if x["r"]["t"] in ("parplane", "parline") else i
     jobs = [("single", recs[i:i + 400]) for i in range(0, len(recs), 400)]
     for kind in ("pp", "ph", "ang2"):
         for dim in (2, 3):
